@@ -234,3 +234,97 @@ def operation_fn_emitter(X):
 def method_emitter(X):
     """the function that writes the client method `pub async fn <op>(&self, req)` of an operation (called by the service writer)"""
     return _emitter_under(X, SERVICE_WRITER, r"^\s*pub (?:async )?fn \{\}\(&self")
+
+
+# ---- which XML attributes a function reads ----------------------------------------------------------------------------------------
+
+def _attribute_params(F):
+    """{local fn path: set of parameter positions whose value is handed to `.attribute(..)` of an XML node}: small helpers such as
+    `required_attribute(node, "name")`"""
+    def f():
+        out = {}
+        for b in F.lib.bodies:
+            if b.get("hir") is None or b.get("closure"):
+                continue
+            nb = Hh.norm_body(b)
+            ids = {}
+            for i, p in enumerate(nb["params"]):
+                for bid, _name in Hh.pat_bindings(p):
+                    ids[bid] = i
+            pos = set()
+            for x in Hh.exprs(nb["value"]):
+                if x.get("k") == "MethodCall" and x["name"] == "attribute" and x["args"]:
+                    a0 = Hh.strip(x["args"][0])
+                    if a0.get("k") == "Path" and a0.get("res") == "local" and a0.get("id") in ids:
+                        pos.add(ids[a0["id"]])
+            if pos:
+                out[b["path"]] = pos
+        return out
+    return _cache(F, "attribute_params", f)
+
+
+def attribute_reads(F, path):
+    """names of the XML attributes the function reads: `.attribute("x")` or a call of an attribute-reading helper with the literal"""
+    b = F.lib.body(path)
+    if b is None or b.get("hir") is None:
+        return set()
+    helpers = _attribute_params(F)
+    out = set()
+    for x in Hh.exprs(Hh.norm_body(b)["value"]):
+        if x.get("k") == "MethodCall" and x["name"] == "attribute" and x["args"]:
+            a0 = Hh.strip(x["args"][0])
+            if a0.get("k") == "Lit" and a0.get("lit") == "str":
+                out.add(a0["v"])
+        if x.get("k") in ("Call", "MethodCall"):
+            cp = Hh.callee_path(x) or ""
+            if cp in helpers:
+                args = ([x["recv"]] if x.get("k") == "MethodCall" else []) + list(x["args"])
+                for i in helpers[cp]:
+                    if i < len(args):
+                        a = Hh.strip(args[i])
+                        if a.get("k") == "Lit" and a.get("lit") == "str":
+                            out.add(a["v"])
+    return out
+
+
+# ---- the fixed text around the generated items ------------------------------------------------------------------------------------
+
+HEADER_WRITER = "<model::file_header::FileHeader as reader::WriteXml<W>>::write_xml"
+HELPERS_WRITER = "<model::helpers::Helpers as reader::WriteXml<W>>::write_xml"
+
+
+def fixed_text(X, fn):
+    """(text, problem): everything the writer function `fn` writes, when that is the same text for every document: literals and
+    constants whose value the compiler evaluated, written unconditionally with the result propagated. problem says why not."""
+    from rules import templates as T
+    CE = og.CallExpander(X.F)
+    out = []
+    try:
+        evs = [e for e in T.inline(X, fn) if e.kind == "emit"]
+    except og.Unrecognised as u:
+        return None, f"not readable: {u.what}"
+    if not evs:
+        return None, "writes nothing"
+    for e in evs:
+        if e.ctx:
+            return None, f"writes conditionally / in a loop at {e.site}"
+        if getattr(e.ev, "propagated", "try") not in ("try", "tail", "returned", "propagated"):
+            return None, f"drops the result of a write at {e.site}"
+        for p in e.parts:
+            if p[0] == "lit":
+                out.append(p[1])
+            elif isinstance(p[1], tuple) and p[1][0] == "const" and (len(p) < 3 or p[2] == "display") and CE.const_text(p[1][1]) is not None:
+                out.append(CE.const_text(p[1][1]))
+            else:
+                return None, f"writes a value that is not a constant text at {e.site}"
+    return "".join(out), None
+
+
+def header_text(F, X=None):
+    from rules import templates as T
+    return fixed_text(X or T.extractor(F), HEADER_WRITER)
+
+
+def helpers_text(F, X=None):
+    from rules import templates as T
+    return fixed_text(X or T.extractor(F), HELPERS_WRITER)
